@@ -777,6 +777,34 @@ func (e *engine) doStep(st step) {
 				<-done
 			}(gate)
 		}
+		// Kind "release-race": another connection of the holder gives the halt lock back while this
+		// transaction is inside its commit step (LiteFS is building the transaction file): the release
+		// waits for the commit (its recovery needs the write lock), the commit is the holder's
+		var relDone chan struct{}
+		if st.G.Kind == "release-race" && e.hh != nil && !e.cfg.WAL {
+			relDone = make(chan struct{})
+			prevHook := w.n["R"].OS.Before
+			var once sync.Once
+			hh := e.hh
+			w.n["R"].OS.Before = func(ev sim.OSEvent) error {
+				if ev.Call == "Create" && strings.HasPrefix(ev.Label, "COMMITJOURNAL") {
+					once.Do(func() {
+						go func() {
+							defer close(relDone)
+							ctx, cancel := context.WithTimeout(context.Background(), 10*time.Second)
+							defer cancel()
+							_ = core.Try(func() { _ = hh.unlock(ctx) })
+						}()
+						time.Sleep(150 * time.Millisecond)
+					})
+				}
+				if prevHook != nil {
+					return prevHook(ev)
+				}
+				return nil
+			}
+			defer func() { w.n["R"].OS.Before = prevHook }()
+		}
 		pn, to := bounded("holder-transaction", 60*time.Second, func() {
 			// like SQLite's busy handler: the stream goroutine takes the write lock for a moment whenever a
 			// frame arrives (also for the holder's own frames, which it then discards)
@@ -791,6 +819,13 @@ func (e *engine) doStep(st step) {
 		if gate != nil {
 			gate.release()
 			e.res.Overlapped++
+		}
+		if relDone != nil {
+			select {
+			case <-relDone:
+			case <-time.After(20 * time.Second):
+			}
+			e.first = false
 		}
 		if e.callTrouble("holder transaction", pn, to) {
 			return
@@ -1504,6 +1539,9 @@ func directed() []script {
 		{NoModel: true, Src: "directed/acquire-repeated-while-waiting", H: []step{
 			mk("LWBegin", gArgs{}), mk("AcquireRace", gArgs{F: "none", D: true}), mk("RTx", none), mk("Release", none), mk("LWBegin", gArgs{}), mk("LWCommit", gArgs{}),
 			mk("Acquire", none), mk("RTx", none), mk("Release", none), mk("LWBegin", gArgs{}), mk("LWCommit", gArgs{})}},
+		// the lock is given back by another connection of the holder while a commit is being built
+		{NoModel: true, Src: "directed/release-during-commit", H: []step{
+			mk("Acquire", none), mk("RTx", none), mk("RTx", gArgs{F: "none", Kind: "release-race"}), mk("LWBegin", gArgs{}), mk("LWCommit", gArgs{})}},
 		{NoModel: true, Src: "directed/lagging-holder", H: []step{
 			mk("Lag", gArgs{}), mk("LWBegin", gArgs{}), mk("LWCommit", gArgs{}), mk("LagWait", gArgs{}), mk("Acquire", none), mk("RTx", none), mk("Release", none)}},
 	}
